@@ -25,6 +25,7 @@ var c18SynCorpus = []string{
 	"{a(x:\"\\q\")}", "{a(x:\"\\u00zz\")}", "{a(x:\"\\u00\")}", "{a(x:\"\\u0", "{a(x:\"a\\", "{a(x:\"\x07\")}", "{a(x:\"\"\"abc", "{a(x:\"\"\"a\x01b\"\"\")}", "{a(x:\"\"\" \\\"\"\" ",
 	"query($a: [Int", "query($a:", "query($a: [", "type T { a: [Int }", "type T { a: ", "{a ..b}", "{a . b}", "{a \x00 b}", "{a \x7f b}", "{ a ~ }", "{ a\r\n  b(\r\n }", "{ a\r  b(\r }", "{\n a\n\r\n b: \n}",
 	"{ a } }", "{ a", "query Q", "{ a: }", "{ : a }", "{ ...on }", "fragment on on T { a }", "fragment F T { a }", "type T implements { a: Int }", "union U = ", "union U = |", "directive @d on", "directive d on A",
+	"type A implements & <", "type A implements & %", "type A implements &\n<", "extend type String\r\nimplements\r& <# c\n", "type A implements & B & <", "type A implements &", "union U = | <", "union U = A | %",
 	"enum E { true: }", "input I { a }", "interface I { a: }", "extend T { a: Int }", "scalar", "type", "{ a(x: $) }", "query Q($a: Int = $b) { a }", "query Q($a Int) { a }", "{ a(x: [1 }", "{ a(x: {b 1}) }",
 }
 
